@@ -1,3 +1,4 @@
+import errno
 import importlib.util
 import os
 import stat
@@ -79,6 +80,10 @@ class BaseFiles(Generic[Interface]):
         except (FileNotFoundError, NotADirectoryError, ValueError):
             # NotADirectoryError: '/file.txt/x'; ValueError: embedded null byte
             return None, False
+        except OSError as exc:
+            if exc.errno == errno.ENAMETOOLONG:
+                return None, False
+            raise
 
     def if_none_match(self, etag: str, if_none_match: str) -> bool:
         if not if_none_match:
